@@ -2832,8 +2832,12 @@ impl HnswBackend {
         };
         let search_k = compute_search_k(k, live_docs, total_slots);
 
+        // The index guard is held until the internal ids have been mapped: tombstone compaction
+        // (index.write, then doc_store.write) renumbers the internal ids of both, and a search
+        // that mapped ids found in the old graph through the renumbered store would pair one
+        // document's id with another vector's distance. Same order as the writers: index, store.
+        let index = self.index.read();
         let mut raw_results = {
-            let index = self.index.read();
             let distance = index.distance_metric();
             let normalized_query = normalize_query_if_needed(distance, query)?;
             index.knn_search_with_ef_cancel(
@@ -2926,7 +2930,7 @@ impl HnswBackend {
         // Keep chunked parallel execution to preserve batched throughput advantages.
         let worker_count = rayon::current_num_threads().max(1);
         let batch_chunk_size = worker_count.saturating_mul(8).max(32);
-        let mut raw_results: Vec<Vec<SearchResult>> = Vec::with_capacity(queries.len());
+        let mut mapped: Vec<Vec<SearchResult>> = Vec::with_capacity(queries.len());
         for chunk in queries.chunks(batch_chunk_size) {
             let index = self.index.read();
             let chunk_results: Vec<Result<Vec<SearchResult>>> = chunk
@@ -2942,15 +2946,13 @@ impl HnswBackend {
                 .collect();
             let chunk_results: Vec<Vec<SearchResult>> =
                 chunk_results.into_iter().collect::<Result<_>>()?;
-            raw_results.extend(chunk_results);
-            drop(index);
-        }
 
-        // Map internal IDs to external IDs in a single doc_store read pass (no O(N) clone).
-        let store = self.doc_store.read();
-        let mapped = raw_results
-            .into_iter()
-            .map(|mut results| {
+            // Map internal IDs to external IDs while this chunk's index guard is still held:
+            // tombstone compaction renumbers the internal ids of index and store together, so
+            // ids found in the graph must be mapped through the store of the same generation
+            // (same lock order as the writers: index, then store).
+            let store = self.doc_store.read();
+            mapped.extend(chunk_results.into_iter().map(|mut results| {
                 // Results are already sorted by ascending distance from the index backend;
                 // preserve that order while filtering tombstones.
                 let mut out = Vec::with_capacity(k.min(results.len()));
@@ -2969,8 +2971,10 @@ impl HnswBackend {
                     }
                 }
                 out
-            })
-            .collect();
+            }));
+            drop(store);
+            drop(index);
+        }
         Ok(mapped)
     }
 
